@@ -59,15 +59,15 @@ ASSUMPTIONS = [
     'counted as not_drained and makes the run inconclusive, never violated',
 ]
 MIN = {
-    'batches': 150, 'commands_put': 600, 'contexts_judged': 600,
-    'starts_observed': 300, 'bound_checks': 300, 'at_capacity': 60,
-    'killed_on_timeout': 15,
-    'op:set_stopping': 20, 'op:close': 20, 'op:terminate': 20,
-    'jobs_submit_queued_at_stop': 12, 'queued_at_terminate': 12,
-    'running_at_terminate': 12, 'rejected_at_put': 30, 'kind:ssh255': 20,
-    'kind:missing': 20,
+    'batches': 100, 'commands_put': 400, 'contexts_judged': 400,
+    'starts_observed': 200, 'bound_checks': 200, 'at_capacity': 40,
+    'killed_on_timeout': 10,
+    'op:set_stopping': 12, 'op:close': 12, 'op:terminate': 12,
+    'jobs_submit_queued_at_stop': 8, 'queued_at_terminate': 8,
+    'running_at_terminate': 8, 'rejected_at_put': 20, 'kind:ssh255': 12,
+    'kind:missing': 12,
 }
-NCASES = {'quick': 400, 'thorough': 4000}
+NCASES = {'quick': 320, 'thorough': 3200}
 CASE_TIMEOUT = 120
 
 JOBS_SUBMIT = 'jobs-submit'
